@@ -2,6 +2,10 @@
 use vmon::report::parse_args;
 
 mod c21;
+mod c21_eval;
+mod c21_map;
+mod common;
+mod ivset;
 mod c32;
 mod c33;
 mod c34;
